@@ -383,6 +383,49 @@ fn c13_case(order: usize, stage: usize, log_gain: bool, rate: usize, alpha: f64,
     }
 }
 
+/// the spectrum of a frame is that frame's gain and frequencies whatever came before: a lead-in frame with the SAME line
+/// spectral frequencies and another gain, then the frame under test twice; the response is read from the third frame
+/// (seeded change C13i: coefficients reused when the frequencies repeat, the gain left out of the comparison)
+pub fn gen_c13_history(rng: &mut Rng, n: usize) {
+    for i in 0..n {
+        let order = rng.range(2, 12);
+        let stage = rng.range(1, 3);
+        let log_gain = i % 2 == 0;
+        let alpha = if i % 4 == 0 { 0.0 } else { rng.uniform(0.0, 0.55) };
+        let rate = *rng.pick(&[8000usize, 16000, 48000]);
+        let lsf = random_lsp(rng, order);
+        let g = |rng: &mut Rng| if log_gain { rng.uniform(-1.0, 1.5) } else { rng.uniform(0.3, 4.0) };
+        let (g1, g2) = (g(rng), g(rng));
+        let frame = |gain: f64| { let mut v = vec![gain]; v.extend_from_slice(&lsf); v };
+        let mut mult = 1usize;
+        let (case, out) = loop {
+            let r = rate * mult;
+            let fperiod = r / 20; // the period at the 20 Hz floor: one pulse per frame, on its first sample
+            let case = VocCase {
+                nmcp: order + 1, nlpf: 0, stage, log_gain, rate: r, alpha, beta: 0.0, volume: 1.0, fperiod,
+                frames: vec![(20.0f64.ln(), frame(g1), vec![]), (20.0f64.ln(), frame(g2), vec![]), (20.0f64.ln(), frame(g2), vec![])],
+            };
+            let out = case.run();
+            let settled = match &out {
+                Ok(w) if w.iter().all(|x| x.is_finite()) && w.len() == 3 * fperiod => (1..3).all(|f| {
+                    let fr = &w[f * fperiod..(f + 1) * fperiod];
+                    let tot: f64 = fr.iter().map(|x| x * x).sum();
+                    let tail: f64 = fr[fperiod * 7 / 8..].iter().map(|x| x * x).sum();
+                    tail <= 1e-12 * tot
+                }),
+                _ => true,
+            };
+            if settled || mult >= 16 { break (case, out); }
+            mult *= 4;
+        };
+        let mut line = String::from("voc C13h");
+        case.push(&mut line);
+        push_wave(&mut line, &out);
+        push_u(&mut line, *rng.pick(&[33usize, 65, 129]));
+        println!("{}", line);
+    }
+}
+
 /// inputs kept from earlier runs (`/verif/corpus/C13.txt`: order stage log_gain rate alpha beta k v...), run first
 fn c13_corpus() -> Vec<String> {
     let path = format!("{}/../corpus/C13.txt", env!("CARGO_MANIFEST_DIR"));
@@ -428,6 +471,7 @@ pub fn gen_c13(seed: u64, thorough: bool) {
             println!("{}", line);
         }
     }
+    gen_c13_history(&mut rng, if thorough { 300 } else { 16 });
 }
 
 // ------------------------------------------------------------------------------------------ C14
@@ -447,6 +491,9 @@ pub fn gen_c14(seed: u64, thorough: bool) {
         if nmcp > 1 && c[1].abs() < 0.3 {
             c[1] = if c[1] < 0.0 { -0.3 } else { 0.3 };
         }
+        // value class (every fifth case): a gain term far from 0 — the energy the post-filter preserves is then 1e-35 or 1e+9,
+        // and the 1 % clause is relative (seeded change C14i: the measured energy floored at f64::EPSILON)
+        if i % 5 == 2 { c[0] = if rng.chance(0.7) { rng.uniform(-45.0, -15.0) } else { rng.uniform(5.0, 10.0) }; }
         // value class (every eighth case): the first-order term of the UNWARPED cepstrum vanishes, so the second sample of
         // the impulse response the post-filter measures is zero — c1 = +-0 at alpha 0, the cancelling c1 otherwise
         // (seeded change C14g: the impulse-response recursion stopped at the first near-zero sample)
